@@ -20,7 +20,7 @@ EXPLANATION = (
     "in the same block (and vice versa), and whole-row stores are empty_line(); (5) PROG: every while loop of the emulator assigns its driving variable on every back edge."
     ' Added after seed round 3: (11) every path through push_cursor stores is_rotten_cursor; (12) the reverse and forward arms of linefeed test mirrored comparisons.'
     ' Round 4: C15.4 follows locals bound to a grid row (`line = self.term[y]`); (13) every scroll decision of linefeed / push_cursor compares the row with the scroll-region margin.'
-    ' Round-4 triage: (14) scroll / IL / DL pop before they insert and IL / DL return outside the scrolling region; (15) erase calls pass inclusive cursor coordinates; (16) the canvas cursor is built from constrained coordinates; (17) counting loops driven by an escape-sequence parameter are clamped with min() first; (18) SGR state: csi_set_attr() undoes exactly the colour adjustment sgi_to_attrspec() applies (bold->bright, foreground only) and no SGR parameter is interpreted by fixed position; (19) lines leaving the scrollback are cut / padded to the current width and shortening the scrollback re-clamps scrolling_up.'
+    ' Round-4 triage: (14) scroll / IL / DL pop before they insert and IL / DL return outside the scrolling region; (15) erase calls pass inclusive cursor coordinates; (16) the canvas cursor is built from constrained coordinates; (17) counting loops driven by an escape-sequence parameter are clamped with min() first; (18) SGR state: csi_set_attr() undoes exactly the colour adjustment sgi_to_attrspec() applies (bold->bright, foreground only) and no SGR parameter is interpreted by fixed position; (19) lines leaving the scrollback are cut / padded to the current width and shortening the scrollback re-clamps scrolling_up. Round 5: (18) the undo also repeats the colour-depth test of the mapping; (20) no slice bound of TermCanvas is an unclamped difference of runtime quantities.'
 )
 NOT_DECIDED = (
     "Index-bounds safety of every self.term[y][x] access (IndexError is outside the exception model; only the clamp discipline is decided), width normalisation of rows returned "
@@ -679,6 +679,13 @@ def rule_sgr_state(ctx: Ctx) -> RuleResult:
                 continue
             k, acond = applied[role]
             bold_needed = "bold" in acond
+            # the mapping's own state conditions (`colors == 16`) have to be repeated by the undo: what is not mapped
+            # must not be un-mapped (a bold 256-colour foreground would lose 8 at every later SGR)
+            depth_consts = {c.comparators[0].value for t in cfg_s.nodes if t.kind == "test" for c in ast.walk(t.ast) if isinstance(c, ast.Compare) and len(c.ops) == 1 and isinstance(c.ops[0], ast.Eq) and "colors" in ast.unparse(c.left) and isinstance(c.comparators[0], ast.Constant) and norm(t.ast, 80) in acond}
+            undo_consts = {c.comparators[0].value for t in conds for c in ast.walk(t.ast) if isinstance(c, ast.Compare) and len(c.ops) == 1 and isinstance(c.ops[0], ast.Eq) and "colors" in ast.unparse(c.left) and isinstance(c.comparators[0], ast.Constant)}
+            if depth_consts - undo_consts:
+                rr.add(finding("SIB", csa, a, f"`{norm(a)}` (under `{ctext}`) undoes the bold->bright mapping without the colour-depth test the mapping itself is made under (`{acond}`): a bold foreground of a deeper colour mode (38;5;N with N >= 8, 38;2;r;g;b) is never mapped but loses {k} at every later SGR sequence", construct=f"{role}: undo without the mapping's colour-depth test"))
+                continue
             has_bold = any(isinstance(x, ast.Attribute) and x.attr == "bold" for t in conds for x in ast.walk(t.ast)) or any(isinstance(x, ast.Constant) and x.value == "bold" for t in conds for x in ast.walk(t.ast))
             if not isinstance(a.op, ast.Sub) or a.value.value != k or (bold_needed and not has_bold):
                 rr.add(finding("SIB", csa, a, f"`{norm(a)}` (under `{ctext}`) is not the inverse of `{role} += {k}` (under `{acond}`) in sgi_to_attrspec(): a bright {role} that does not come from bold (SGR 90-97) is turned dark by the next SGR sequence", construct=f"{role}: undo not conditioned like the mapping"))
@@ -733,6 +740,8 @@ def rule_scrollback(ctx: Ctx) -> RuleResult:
                 takes.append(n)
             elif isinstance(n, ast.Subscript) and is_sb(n.value, sn) and isinstance(n.ctx, ast.Load):
                 takes.append(n)
+            elif isinstance(n, ast.Call) and n.args and is_sb(n.args[0], sn) and callee_name(n) in ("islice", "list", "tuple", "reversed"):
+                takes.append(n)
         if takes:
             cut = any(isinstance(x, ast.Subscript) and isinstance(x.slice, ast.Slice) and x.slice.upper is not None and ast.unparse(x.slice.upper) == f"{sn}.width" for x in fi.own_nodes())
             pad = any(isinstance(x, ast.BinOp) and isinstance(x.op, ast.Mult) and "empty_char" in ast.unparse(x) for x in fi.own_nodes())
@@ -748,6 +757,27 @@ def rule_scrollback(ctx: Ctx) -> RuleResult:
                 rr.inst(f"{short(fi)}: shortens", True, {"function": short(fi), "shortens": norm(sh, 50), "clamps": [norm(c.stmt, 70) for c in clamps]})
                 if not ok:
                     rr.add(finding("PASS", fi, sh, f"`{norm(sh, 50)}` shortens the scrollback and a path to the end of {fi.name}() does not re-clamp self.scrolling_up to its new length: a view scrolled back further than the scrollback now reaches yields fewer than `height` rows", construct=f"{fi.name}: scrolling_up not re-clamped after {norm(sh, 40)}"))
+    return rr
+
+
+def rule_negative_slice(ctx: Ctx) -> RuleResult:
+    """`seq[: a - b]` means "all but the last b - a" as soon as a < b: a slice bound that is a difference of two
+    runtime quantities silently changes its meaning when it goes negative.  The grid / scrollback code of TermCanvas
+    has no such bound today (it writes the negative bounds it wants explicitly, `buf[-(height + up) : -up]`); any new
+    one has to be clamped with max(.., 0) or made under a test of the two operands."""
+    p = ctx.p
+    rr = RuleResult("BOUND", "C15.20", "no slice bound in TermCanvas is an unclamped difference of runtime quantities (it would flip to from-the-end indexing when negative)", floor=1)
+    tc = p.cls(f"{VT}.TermCanvas")
+    n_slices = 0
+    for fi in p.all_class_functions(tc):
+        for n in fi.own_nodes():
+            if not (isinstance(n, ast.Subscript) and isinstance(n.slice, ast.Slice)):
+                continue
+            n_slices += 1
+            for b in (n.slice.lower, n.slice.upper):
+                if isinstance(b, ast.BinOp) and isinstance(b.op, ast.Sub) and not isinstance(b.left, ast.Constant) and not isinstance(b.right, ast.Constant):
+                    rr.add(finding("BOUND", fi, n, f"the slice bound `{norm(b, 40)}` in `{norm(n, 60)}` is a difference of two runtime quantities with no clamp: when it goes negative (the view scrolled back further than one screen) the slice counts from the end and returns most of the sequence instead of nothing - the canvas yields more than `height` rows", construct=f"unclamped difference as slice bound: {norm(n, 60)}"))
+    rr.inst("slices of TermCanvas", True, {"slices_examined": n_slices})
     return rr
 
 
@@ -778,6 +808,7 @@ def run(ctx: Ctx):
         rule_bounded_counts(ctx),
         rule_sgr_state(ctx),
         rule_scrollback(ctx),
+        rule_negative_slice(ctx),
     ]
     return out
 
@@ -786,6 +817,8 @@ from ..mutants import Mut  # noqa: E402
 
 _V = "urwid/vterm.py"
 MUTANTS = [
+    Mut("sgr-fg-undo-without-depth-test", _V, "TermCanvas.csi_set_attr", "if fg >= 8 and self.attrspec.colors == 16 and self.attrspec.bold:", "if fg >= 8 and self.attrspec.bold:", "SIB|vterm.TermCanvas.csi_set_attr|fg: undo without the mapping's colour-depth test"),
+    Mut("scrollback-view-negative-slice", _V, "TermCanvas.content", "            buf = [*self.scrollback_buffer, *self.term]\n            for line in buf[-(self.height + self.scrolling_up) : -self.scrolling_up]:", "            first = len(self.scrollback_buffer) - self.scrolling_up\n            for line in (*list(self.scrollback_buffer)[first : first + self.height], *self.term[: self.height - self.scrolling_up]):", "BOUND|vterm.TermCanvas.content"),
     Mut("autowrap-clears-pending-wrap-blindly", _V, "TermCanvas.push_cursor", "                self.is_rotten_cursor = x >= self.width\n", "                self.is_rotten_cursor = False\n", "PASS|vterm.TermCanvas.push_cursor|pending wrap cleared"),
     Mut("twin-autowrap-pending-not-form", _V, "TermCanvas.push_cursor", "                self.is_rotten_cursor = x >= self.width\n", "                self.is_rotten_cursor = not x < self.width\n", twin=True),
     Mut("scrollback-view-old-width", _V, "TermCanvas.content", "                if (padding := self.width - len(line)) > 0:\n                    yield line + [self.empty_char()] * padding\n                else:\n                    yield line[: self.width]\n", "                yield line\n", "PASS|vterm.TermCanvas.content"),
